@@ -4,7 +4,12 @@
 // region, FMAP + CBFS) and on variants of testdata/firmware/fake_intel_firmware.fd with the
 // FIT rewritten; seq.go runs the same operations in sequences on ONE BootGuard object, ONE
 // reused image buffer and ONE reused file (and adds layouts whose mapped region does not end
-// at the end of the image).
+// at the end of the image) and rewrites the digest list of the object between the calls (buffers
+// kept under a shorter / longer algorithm, moved, loaded with bytes of any length).
+// Startup ACMs: small ones in every generated FIT, 384 KiB images with an ACM of 256 KiB and more
+// (size field >= 0x10000), headers whose size field has its upper bytes set; the new ACM has the
+// declared size, a neighbouring one, or what a reader with another idea of the size field
+// (width, offset, unit, byte order) would expect (misreadSizes).
 //
 // The oracle is written from the property text, not from the model: it knows the FIT it wrote
 // and where it put each region, maps a physical address to `region_end - (4GiB - addr)`,
@@ -74,6 +79,8 @@ type image struct {
 	Cbfs      []cbfsFile
 	Inner     bool // the mapped region does not end at the end of the image (RegionEnd < len)
 	NoFit     bool // no FIT / CBFS at all: only address translation and digests are exercised
+	BigACM    bool // holds a startup ACM of 256 KiB or more
+	BadACM    bool // an ACM header whose size field declares more than the image holds
 	enc       string
 }
 
@@ -193,7 +200,22 @@ func buildFit(im *image, pl fitPlan, lo, hi int) []fitEnt {
 		sz := 4 * (0x10 + rng.Intn(0x60))
 		off, ok := al.carve(sz)
 		if ok {
-			copy(im.Bytes[off:], acmBlob(sz, uint32(sz/4), byte(rng.Intn(256))))
+			sf := uint32(sz / 4)
+			if rng.Intn(5) == 0 {
+				// malformed: upper bytes of the size field are set (byte 26 only, byte 27 only, both),
+				// the header declares (far) more than the image holds (below 2^30 units: the
+				// declared size fits 32 bits)
+				switch rng.Intn(3) {
+				case 0:
+					sf |= uint32(1+rng.Intn(0xff)) << 16
+				case 1:
+					sf |= uint32(1+rng.Intn(0x3f)) << 24
+				default:
+					sf |= uint32(1+rng.Intn(0x3fff)) << 16
+				}
+				im.BadACM = true
+			}
+			copy(im.Bytes[off:], acmBlob(sz, sf, byte(rng.Intn(256))))
 			add(fitEnt{tSACM, im.phys(off), 0})
 		}
 	}
@@ -384,6 +406,44 @@ func genBrokenFit() *image {
 	}
 	im.FitOK = false
 	im.Name = "broken-fit"
+	return im
+}
+
+// a startup ACM as current client and server parts carry it: 256 KiB and more, so that the
+// upper two bytes of the header's size field (32 bits, 4-byte units) are not zero; in a bare
+// BIOS region or behind a flash descriptor, with KM, BPM and a startup module beside it
+func genBigACM(which int) *image {
+	acmLen := []int{0x40000, 0x40000 + 4*(1+rng.Intn(0x3ff)), 0x50000, 0x40000 + 0x400*(1+rng.Intn(0x3f))}[which%4]
+	n := 0x60000
+	im := &image{Bytes: newPatImage(n), RegionEnd: n, FitOK: true, BigACM: true}
+	if rng.Intn(2) == 0 {
+		im.Name, im.Lay = "bios-only/acm>=256KiB", layout{Kind: "bios"}
+	} else {
+		base := 1 + rng.Intn(2)
+		im.Name, im.RegionBeg = "ifd/acm>=256KiB", base*0x1000
+		putIFD(im.Bytes, uint16(base), uint16(n/0x1000-1))
+		im.Lay = layout{Kind: "ifd", Off: uint32(base * 0x1000), Size: uint32(n - base*0x1000)}
+	}
+	acmOff := im.RegionBeg + 0x1000*rng.Intn(3) + 16*rng.Intn(4)
+	copy(im.Bytes[acmOff:], acmBlobFill(acmLen, uint32(acmLen/4), byte(0x11+rng.Intn(0x40))))
+	body := []fitEnt{{tSACM, im.phys(acmOff), 0}}
+	al := &slotAlloc{acmOff + acmLen, n - 0x800}
+	for _, t := range []byte{tKM, tBPM} {
+		if sz := 0x40 + rng.Intn(0x100); rng.Intn(4) != 0 {
+			if off, ok := al.carve(sz); ok {
+				body = append(body, fitEnt{t, im.phys(off), uint32(sz)})
+			}
+		}
+	}
+	for i, k := 0, 1+rng.Intn(2); i < k; i++ {
+		sz16 := 1 + rng.Intn(0x30)
+		if off, ok := al.carve(sz16 * 16); ok {
+			body = append(body, fitEnt{tStartup, im.phys(off), uint32(sz16)})
+		}
+	}
+	rng.Shuffle(len(body), func(i, j int) { body[i], body[j] = body[j], body[i] })
+	im.Fit = append([]fitEnt{fitHeaderEnt(len(body) + 1)}, body...)
+	putFIT(im.Bytes, n-0x800, im.Fit)
 	return im
 }
 
@@ -838,6 +898,22 @@ func casePipeline(im *image) {
 	}
 	flags := pick[uint16](0, 0, 0, 2, 1)
 	b := newBG(ver, 1, algs...)
+	// a manifest that comes with digests (ReadJSON, a parsed BPM, the config of an earlier run):
+	// buffers of any length, shorter and longer than the digests to be generated
+	had := ""
+	if rng.Intn(2) == 0 {
+		for i := range algs {
+			buf := blob(pick(0, 1, 20, 32, 48, 64, 5, 100), byte(0xd0+i))
+			if ver == 1 {
+				b.VData.BGbpm.SE[0].Digest.HashBuffer = buf
+			} else {
+				b.VData.CBNTbpm.SE[0].DigestList.List[i].HashBuffer = buf
+			}
+			had += fmt.Sprintf(" %d", len(buf))
+		}
+		had = " digest buffers the manifest came with (lengths):" + had
+		ctx.Count("create-digest/manifest-came-with-digests")
+	}
 	p := writeTmp(im.Bytes)
 	var err error
 	pan, _ := gal.Recover(func() { err = b.CreateIBBSegments(0, flags, p) })
@@ -852,7 +928,7 @@ func casePipeline(im *image) {
 	}
 	pan, msg := gal.Recover(func() { err = b.CreateIBBDigest(p) })
 	ds := getDigests(b, ver)
-	in := segInput{Image: im.Name, Layout: im.Lay, Len: len(im.Bytes), Ver: ver, Alg: fmt.Sprint(algs), Segs: segs, Fit: im.Fit, Flags: flags, Extra: fmt.Sprintf("panic=%q err=%v", msg, err)}
+	in := segInput{Image: im.Name, Layout: im.Lay, Len: len(im.Bytes), Ver: ver, Alg: fmt.Sprint(algs), Segs: segs, Fit: im.Fit, Flags: flags, Extra: fmt.Sprintf("panic=%q err=%v", msg, err) + had}
 	spec, specOK := specPreimage(im, segs)
 	var obs []string
 	allFound := true
@@ -907,7 +983,7 @@ func casePipeline(im *image) {
 			digestsGood = true
 			break
 		}
-		what := fmt.Sprintf("CreateIBBDigest(%s image): err=%v digests=%x, want hash of the startup modules' bytes (%x)", im.Lay.Kind, err, ds, goHash(int64(algs[0]), spec))
+		what := fmt.Sprintf("CreateIBBDigest(%s image): err=%v digests=%x, want hash of the startup modules' bytes (%x)%s", im.Lay.Kind, err, ds, goHash(int64(algs[0]), spec), had)
 		if d9Bites(im, segs) {
 			if pp, ok := readLike(im.Bytes, segs, d9Off); (err != nil && !ok) || (err == nil && ok && bytes.Equal(ds[0], goHash(int64(algs[0]), pp))) {
 				what += " (the bytes at the tail offsets 4GiB-base were hashed: the CalcImageOffset defect repaired by 98fb605)"
@@ -1011,6 +1087,10 @@ func diffRuns(before, after []byte) (lits []string, runs [][2]int) {
 
 func caseStitch(im *image) { caseStitchAt(im, "", "") }
 
+// stitchDeclared: the next caseStitchAt offers a new ACM of exactly the size the header of the
+// ACM in the image declares (the legitimate replacement)
+var stitchDeclared bool
+
 // path != "": the file (already holding im.Bytes) to stitch, a path the harness uses again and
 // again; note: the call history for the failing input
 func caseStitchAt(im *image, path string, note string) {
@@ -1033,11 +1113,19 @@ func caseStitchAt(im *image, path string, note string) {
 			}
 		}
 	}
+	declared := stitchDeclared // the legitimate replacement: every new blob fits its entry
+	stitchDeclared = false
 	newLen := func(e *fitEnt) int {
 		if e == nil || e.Size == 0 {
+			if declared {
+				return 0
+			}
 			return pick(0, 0x20)
 		}
 		s := int(e.Size)
+		if declared {
+			return pick(0, 1, s/2, s-1, s, s)
+		}
 		return pick(0, 1, s/2, s-1, s, s, s+1, s+0x40)
 	}
 	km := blob(newLen(kmE), 0x4b)
@@ -1045,17 +1133,42 @@ func caseStitchAt(im *image, path string, note string) {
 	var acm []byte
 	if acmE != nil {
 		if o, ok := im.inImage(acmE.Addr, 32); ok {
-			old := int(binary.LittleEndian.Uint32(im.Bytes[o+24:])) * 4
-			if old > 2*len(im.Bytes) {
-				old = 0x80 // the entry does not point at an ACM header (an image edited in place, seq.go)
+			// the size the header declares (32-bit word at 24, 4-byte units); lengths of the new ACM:
+			// that size (mostly), just beside it, and what a reader with another idea of the field
+			// (width, offset, unit, byte order) would take for it
+			hdr := im.Bytes[o : o+32]
+			decl := uint64(binary.LittleEndian.Uint32(hdr[24:])) * 4
+			var choices []int
+			if decl > 0 && uint64(o)+decl <= uint64(len(im.Bytes)) {
+				old := int(decl)
+				choices = []int{0, old, old, old, old, old, old - 4, old + 4}
+			} else {
+				// the header declares more than the image holds (malformed, or the entry does not
+				// point at an ACM header: an image edited in place, seq.go)
+				choices = []int{0, 0x80}
 			}
-			n := pick(0, old, old, old, old-4, old+4)
+			for _, m := range misreadSizes(hdr, len(im.Bytes)) {
+				if uint64(m) != decl {
+					choices = append(choices, m)
+					if len(choices) < 6 {
+						choices = append(choices, m) // (few alternatives: a malformed header)
+					}
+				}
+			}
+			n := choices[rng.Intn(len(choices))]
+			if declared {
+				n = choices[1]
+			}
 			if n > 0 {
 				sf := uint32(n / 4)
-				if rng.Intn(4) == 0 {
+				if rng.Intn(4) == 0 && !declared {
 					sf = uint32(rng.Intn(0x200)) // a new ACM whose own size field disagrees with its length
 				}
-				acm = acmBlob(n, sf, 0xac)
+				if n > 0x800 {
+					acm = acmBlobFill(n, sf, 0xac)
+				} else {
+					acm = acmBlob(n, sf, 0xac)
+				}
 			}
 		}
 	} else if rng.Intn(3) == 0 {
@@ -1072,14 +1185,34 @@ func caseStitchAt(im *image, path string, note string) {
 		panic(rerr)
 	}
 	in := stitchInput{Image: im.Name, Layout: im.Lay, Len: len(im.Bytes), Fit: im.Fit, ACM: len(acm), BPM: len(bpm), KM: len(km), Extra: fmt.Sprintf("panic=%q err=%v len_after=%d", msg, err, len(after)) + note}
+	if acmE != nil {
+		if o, ok := im.inImage(acmE.Addr, 32); ok {
+			in.Extra += fmt.Sprintf(" header of the ACM in the image (offset %#x): %x", o, im.Bytes[o:o+32])
+		}
+	}
+	// long ACMs (and the differences they leave) travel run-length encoded
+	con, acmLit := "CStitch", gal.Bytes(acm)
 	lits, runs := diffRuns(im.Bytes, after)
+	if len(acm) > 0x800 {
+		con, acmLit = "CStitchP", encodeImage(acm)
+		lits = lits[:0]
+		for _, r := range runs {
+			lits = append(lits, gal.Pair(gal.Z(int64(r[0])), encodeImage(after[r[0]:r[1]])))
+		}
+	}
 	if pan {
-		idx := ctx.Add("stitch/panic", fmt.Sprintf("CStitch %s %s %s %s %s %s false (-1) []", im.Lay.lit(), im.lit(), fitOptLit(im.Fit, im.FitOK), gal.Bytes(acm), gal.Bytes(bpm), gal.Bytes(km)), in, true)
+		idx := ctx.Add("stitch/panic", fmt.Sprintf("%s %s %s %s %s %s %s false (-1) []", con, im.Lay.lit(), im.lit(), fitOptLit(im.Fit, im.FitOK), acmLit, gal.Bytes(bpm), gal.Bytes(km)), in, true)
 		ctx.OracleFail(idx, "StitchFITEntries panics: "+msg+note, siteStitch, in)
 		return
 	}
-	idx := ctx.Add(fmt.Sprintf("stitch/%s/%s", im.Lay.Kind, map[bool]string{true: "ok", false: "err"}[err == nil]),
-		fmt.Sprintf("CStitch %s %s %s %s %s %s %s %d %s", im.Lay.lit(), im.lit(), fitOptLit(im.Fit, im.FitOK), gal.Bytes(acm), gal.Bytes(bpm), gal.Bytes(km),
+	kind := im.Lay.Kind
+	if im.BigACM {
+		kind += "/acm>=256KiB"
+	} else if im.BadACM {
+		kind += "/acm-header-declares-too-much"
+	}
+	idx := ctx.Add(fmt.Sprintf("stitch/%s/%s", kind, map[bool]string{true: "ok", false: "err"}[err == nil]),
+		fmt.Sprintf("%s %s %s %s %s %s %s %s %d %s", con, im.Lay.lit(), im.lit(), fitOptLit(im.Fit, im.FitOK), acmLit, gal.Bytes(bpm), gal.Bytes(km),
 			gal.Bool(err == nil), len(after), gal.List(lits)), in, true)
 
 	// ---- oracle ----
@@ -1156,8 +1289,22 @@ func caseStitchAt(im *image, path string, note string) {
 			d9differs = true
 		}
 	}
+	// is the tail-offset behaviour really there? (asked only after a failure, and not inside a
+	// sequence, where nothing of the code under test may run between two calls)
+	d9present := func() bool {
+		if path != "" {
+			return true
+		}
+		for _, t := range ts {
+			want, ok := im.specOff(t.e.Addr)
+			if o, err := tools.CalcImageOffset(im.Bytes, t.e.Addr); err == nil && o == basePhys-t.e.Addr && (!ok || o != uint64(want)) {
+				return true
+			}
+		}
+		return false
+	}
 	fail := func(what string, d9ok bool) {
-		if d9ok {
+		if d9ok && d9present() {
 			what += " (what the tail offsets 4GiB-addr explain: the CalcImageOffset defect repaired by 98fb605)"
 		}
 		ctx.OracleFail(idx, what+note, siteStitch, in)
@@ -1340,6 +1487,18 @@ func main() {
 		if i%3 == 0 {
 			caseSequence()
 		}
+		// startup ACMs of 256 KiB and more: the legitimate replacement (same declared size), then
+		// a new ACM of some other length (spread over the run: these images are 384 KiB)
+		if i%37 == 5 {
+			big := genBigACM(i / 37)
+			stitchDeclared = true
+			caseStitch(big)
+			caseStitch(big)
+			if i/37 == 0 {
+				caseSegments(big)
+				casePipeline(big)
+			}
+		}
 	}
 	// malformed stream: no usable FIT
 	for i := 0; i < ctx.Scale(12, 60); i++ {
@@ -1368,5 +1527,5 @@ func main() {
 	}
 	probes()
 	os.Stdout = stdout
-	ctx.Finish("sequences of calls on one BootGuard object, one reused image buffer and one reused file whose contents and layout change between the calls (the model threads the object through the calls; every call is judged against the image it was given), and one case per call of the real code (CalcImageOffset, CreateIBBSegments, GetIBBsDigest, CreateIBBDigest, IBBsMatchBPMDigest, StitchFITEntries) on generated images; the model must reproduce outcome class, segment list, the fingerprint of the hashed bytes (found by hashing candidates with Go crypto) and the exact file contents after stitching")
+	ctx.Finish("sequences of calls on one BootGuard object, one reused image buffer and one reused file whose contents and layout change between the calls and whose digest list the caller rewrites in between, buffers kept (the model threads the object through the calls; every call is judged against the image it was given), and one case per call of the real code (CalcImageOffset, CreateIBBSegments, GetIBBsDigest, CreateIBBDigest, IBBsMatchBPMDigest, StitchFITEntries) on generated images (startup ACMs of 256 KiB and more and ACM headers with a size field that declares too much included); the model must reproduce outcome class, segment list, the fingerprint of the hashed bytes (found by hashing candidates with Go crypto) and the exact file contents after stitching")
 }
